@@ -68,6 +68,22 @@ EXTRA_ASSUMPTIONS = {
             "uninterpreted; that an applicable true assertion contradicts every order ending in the node's tail is the RAIRE paper's lemma, "
             "not re-proved here; the search loop is covered by the bounded stand-in only"],
     "C15": ["as C04; whole-search optimality only by the bounded stand-in"],
+    "C09": ["unbounded proofs: a dict of contests / assertions is modelled as an insertion-ordered collection of symbolic size whose keys are "
+            "pairwise distinct tokens; each assertion's test and mvrs_to_data are taken through their interfaces (C11: p in [0,1], not NaN); "
+            "record-loop summaries: the real loop body is run at an arbitrary entry under the accumulator invariant, and an entry's state "
+            "after the loop is what the body produces at that entry (bodies touch only their own entry, the owner's tables and the accumulator: "
+            "checked on the run, not proved as a frame condition for unseen code)"],
+    "C06": ["mvrs_to_data unbounded proof: the assorter is taken through its interface (a value in [0, upper bound] per card); "
+            "set_p_values as for C09"],
+    "C10": ["the lemma scripts run no code: they derive the round-to-round statements from the contracts proved for consistent_sampling (C07), "
+            "the tests (C05, C11) and set_p_values (C09); the continuation call of consistent_sampling is covered by the bounded stand-in only "
+            "(known finding K5)"],
+    "C16": ["find_sample_size scripts: the test's sample_size and interleave_values are used through their contracts (proved by their own "
+            "scripts); int(1/rate) is handled for rates of the form 1/step"],
+    "C02": ["Assorter.mean / sum / Contest.tally unbounded proofs: a sum over a list is a function of its summands (extensionality) is used to "
+            "identify the code's aggregate with the specification's after the summands have been proved pointwise equal"],
+    "C17": ["pandas is abstracted to columns (iloc, column access, cumsum, concat of one row), np.searchsorted is used through its contract; "
+            "the bijection lemmas run no code"],
 }
 
 FUNCTIONS = {}   # script-name prefix -> repository functions under contract
